@@ -352,4 +352,68 @@ theorem override_rejected_exact (st : Store) (h : WF st) (st' : Store) (memo : L
     with ⟨k, hk, hk1, hk2⟩
   rw [hk, honly k hk1 hk2]
 
+/-! ### Examples -/
+
+instance {ε α : Type} [DecidableEq ε] [DecidableEq α] : DecidableEq (Except ε α) := fun a b =>
+  match a, b with
+  | .ok x, .ok y => if h : x = y then isTrue (congrArg _ h) else isFalse (fun h' => h (by injection h'))
+  | .error x, .error y => if h : x = y then isTrue (congrArg _ h) else isFalse (fun h' => h (by injection h'))
+  | .ok _, .error _ => isFalse (fun h => by cases h)
+  | .error _, .ok _ => isFalse (fun h => by cases h)
+
+/-- @1 allOf [@2, @4], @2 allOf @3, @3, @4 -/
+def ex4 : Store :=
+  [(1, { bases := [2, 4], kids := [{ key := 10 }, { key := 11 }] }),
+   (2, { bases := [3], kids := [{ key := 20 }] }),
+   (3, { kids := [{ key := 30 }, { key := 31 }] }),
+   (4, { kids := [{ key := 40 }] })]
+
+example : WF ex4 := ⟨by decide, by decide, by decide, by decide, by decide, by decide, by decide⟩
+
+/-- the two-base type: bases in written order (each with its own inherited properties first), own properties last -/
+example : (processStore 30 [1, 2, 3, 4] ex4 []).map (fun r => (r.1.get? 1).map (·.kids)) =
+    .ok (some [⟨30, some 2⟩, ⟨31, some 2⟩, ⟨20, some 2⟩, ⟨40, some 4⟩, ⟨10, none⟩, ⟨11, none⟩]) := by decide
+
+example : (processStore 30 [4, 3, 2, 1] ex4 []).map (·.1) = (processStore 30 [1, 2, 3, 4] ex4 []).map (·.1) := by
+  decide
+
+/-- the chain @1 allOf @2 allOf @3 -/
+def ex3 : Store :=
+  [(1, { bases := [2], kids := [{ key := 10 }] }),
+   (2, { bases := [3], kids := [{ key := 20 }] }),
+   (3, { kids := [{ key := 30 }] })]
+
+example : WF ex3 := ⟨by decide, by decide, by decide, by decide, by decide, by decide, by decide⟩
+
+example : (processStore 20 [1, 2, 3] ex3 []).map (·.1) = (processStore 20 [3, 2, 1] ex3 []).map (·.1) := by decide
+
+example : (processStore 20 [3, 2, 1] ex3 []).map (·.1) =
+    .ok [(1, { bases := [2], kids := [⟨30, some 2⟩, ⟨20, some 2⟩, ⟨10, none⟩] }),
+         (2, { bases := [3], kids := [⟨30, some 3⟩, ⟨20, none⟩] }),
+         (3, { kids := [⟨30, none⟩] })] := by decide
+
+/-- a body outside the store, processed before or after the store -/
+example : (process 20 ex3 [] { bases := [1], kids := [{ key := 99 }] }).map (·.2.2.kids) =
+    .ok [⟨30, some 1⟩, ⟨20, some 1⟩, ⟨10, some 1⟩, ⟨99, none⟩] := by decide
+
+example : ((processStore 20 [1, 2, 3] ex3 []).bind fun r =>
+      process 20 r.1 r.2 { bases := [1], kids := [{ key := 99 }] }).map (·.2.2.kids) =
+    .ok [⟨30, some 1⟩, ⟨20, some 1⟩, ⟨10, some 1⟩, ⟨99, none⟩] := by decide
+
+/-- rejections: overriding an inherited (here: transitively inherited) property, a non-object base, an undefined base -/
+example : process 20 ex3 [] { bases := [1], kids := [{ key := 30 }] } = .error (.override 30 1) := by decide
+
+example : processStore 20 [1, 2]
+    [(1, { bases := [2], kids := [{ key := 10 }] }), (2, { isObject := false })] [] = .error (.notObject 2) := by
+  decide
+
+example : processStore 20 [1] [(1, { bases := [7], kids := [{ key := 10 }] })] [] = .error (.notFound 7) := by decide
+
+/-- why diamonds are excluded: the shared ancestor's property is kept once, attributed to the base written last -/
+example : (processStore 30 [1, 2, 3, 4]
+      [(1, { bases := [2, 3], kids := [{ key := 10 }] }), (2, { bases := [4], kids := [{ key := 20 }] }),
+       (3, { bases := [4], kids := [{ key := 30 }] }), (4, { kids := [{ key := 40 }] })] []).map
+      (fun r => (r.1.get? 1).map (·.kids)) =
+    .ok (some [⟨20, some 2⟩, ⟨40, some 3⟩, ⟨30, some 3⟩, ⟨10, none⟩]) := by decide
+
 end JSight.C12
